@@ -28,7 +28,7 @@ def showData : Option Bytes → String
 def textOfBytes? (b : Bytes) : Option Text :=
   (String.fromUTF8? (ByteArray.mk b.toArray)).map String.toList
 
-def handle : Handler := fun op args =>
+def handleCore : Handler := fun op args =>
   match op, args with
   | "numenc", [v] => do
     some ("ok " ++ hx (intToScriptBytes (← parseInt? v)))
@@ -58,5 +58,13 @@ def handle : Handler := fun op args =>
     | .ok b => some ("ok " ++ hx b)
     | .error e => some ("err " ++ e.tag)
   | _, _ => none
+
+/-- `dialect_then <op> <args…>`: the harness first builds and uses a second `ScriptStreamer` of another (toy) dialect in the
+same process and then evaluates `<op>` on the network's streamer; the model has no shared state, so the answer is that of
+`<op>` alone -/
+def handle : Handler := fun op args =>
+  match op, args with
+  | "dialect_then", op' :: args' => handleCore op' args'
+  | _, _ => handleCore op args
 
 end Pycoin.Driver.C12
